@@ -472,7 +472,16 @@ class String(FieldValidator[_P, str], Generic[_P]):
 
         if _VALIDATION_ENABLED.get():
             self.validate_one(value)
-        setattr(obj, self._private_name, value.encode("ascii"))
+        raw = value.encode("ascii")
+        setattr(obj, self._private_name, raw)
+
+        # ctypes copies up to the first NUL only: clear what a longer, previous value left behind
+        fld = getattr(type(obj), self._private_name)
+        used = len(raw.split(b"\x00", 1)[0])
+        if used < fld.size:
+            ctypes.memset(
+                ctypes.addressof(obj) + fld.offset + used, 0, fld.size - used
+            )
 
     def validate_one(self, value: str):
         """Validate a string value
